@@ -19,7 +19,11 @@ ALIAS_OF = {
     "tonr": "rejection_rate",
 }
 METHODS = ["linear", "lower", "higher"]
-EXTREME_TARGETS = [-0.5, -1e-9, 0.0, 1.0, 1.0 + 1e-9, 1.5]
+# incl. the floats adjacent to the ends from outside: -5e-324 <= 0 and nextafter(1, 2) >= 1
+EXTREME_TARGETS = [-0.5, -1e-9, -5e-324, 0.0, 1.0, math.nextafter(1.0, 2.0), 1.0 + 1e-9, 1.5]
+# operating points people actually ask for, values that round to them, and their complements
+CUSTOMARY_TARGETS = [c_ * f_ for c_ in (1e-4, 1e-3, 0.01, 0.05, 0.1, 0.2) for f_ in (1.0, 1.0 + 1e-4, 1.0 - 3e-3)]
+CUSTOMARY_TARGETS += [1.0 - t_ for t_ in CUSTOMARY_TARGETS]
 
 
 def step(t, k):
@@ -144,6 +148,8 @@ def explore(item, ctx, seed, easy_menu, clauses, quarter=True):
                         if len(targets) > 400:  # scale ladder: thin the alphabet, keep both ends and the out-of-range values
                             step_ = len(targets) // 300
                             targets = sorted(set(targets[:12] + targets[::step_] + targets[-12:]))
+                        if "ladder" in str(item.get("grid")):
+                            targets = sorted(set(targets + CUSTOMARY_TARGETS))
                     tarr = np.array(targets, dtype=float)
                     case_m = dict(base_case, metric=metric)
                     res = {}
